@@ -39,6 +39,10 @@ import ClarabelProofs.Lemmas.LoopSwitch
 import ClarabelProofs.Lemmas.StepKTotal
 import ClarabelProofs.Lemmas.StepKInitGenPow
 import ClarabelProofs.Lemmas.StepKPsdTraj
+import ClarabelProofs.Lemmas.StepKPsdLapack
+import ClarabelProofs.Lemmas.StepKPsdInit
+import ClarabelProofs.Lemmas.StepKPsdLapackExample
+import ClarabelProofs.Lemmas.StepKPsdEig
 
 namespace Clarabel.C07
 open Clarabel Clarabel.Loop Clarabel.Loop.Step
@@ -934,5 +938,243 @@ example : ∀ b ∈ exNN.blks, b.NotPsd := by
   subst hb; trivial
 
 end examples5
+
+end Clarabel.C07
+
+/-! ## Round 7: the per-pass PSD hypothesis reduced to the LAPACK contracts; the solver's own initialisations as base case for all seven cone kinds -/
+namespace Clarabel.C07
+open Clarabel Clarabel.StepK Clarabel.Loop Clarabel.Loop.Step
+
+/-- [R] **`PSDTriangleCone::update_scaling` re-establishes the Nesterov–Todd contract.**  If
+`update_scaling(s, z)` of a non-empty PSD cone (any previous scaling state `K0`) returns `true` with
+the scaling `K`, and its three LAPACK results meet their contracts `ScalingLapackOk` — `?potrf`
+twice: `mat s = L₁L₁ᵀ`, `mat z = L₂L₂ᵀ`; `?gesdd`: `L₂ᵀL₁ = U·diag σ·Vt`, `UᵀU = I`, `Vt·Vtᵀ = I`,
+`σ > 0` — then `NtOk K z s` (`W z = λ = W⁻ᵀ s` as `svec(diag λ)`, `R·R⁻¹ = I`, sizes) and
+`Λisqrt = Λ^{-1/2} > 0` hold, the cone keeps its order and the order is positive.  The slice
+lengths and the sizes of the LAPACK outputs are not assumed: they follow from the success of the
+call (`sizeGuard`s of the model = the `assert`s / slice lengths of the code). -/
+theorem update_scaling_reestablishes_nt (K0 K : PsdTri.Cone ℝ) (s z L1 L2 U Vt sig : Array ℝ)
+    (hs : s.isEmpty = false)
+    (h : PsdTri.updateScaling K0 s z ⟨some L1, some L2, some (U, Vt, sig)⟩ = .ok (true, K))
+    (hc : ScalingLapackOk K.n s z L1 L2 U Vt sig) :
+    K.n = K0.n ∧ 0 < K.n ∧ PsdStep.NtOk K z s ∧ PsdStep.ScalingOk K.n K.lam K.lamIsqrt :=
+  StepK.updateScaling_lapack_nt K0 K s z L1 L2 U Vt sig hs h hc
+
+/-- [R] **`PsdPassOk` from the LAPACK contracts of the pass.**  `LapackPassOk q`: for every PSD block
+`.psd K γz γs z s dz ds` of the pass's iterate-with-direction `q` (non-empty cone), `K` is what this
+pass's `update_scaling(s, z)` left behind on its success path from LAPACK results meeting
+`ScalingLapackOk` (Cholesky ×2, SVD), and both `?syevr` calls of `step_length` answered with the
+least eigenvalue of the matrix handed over (`IsMinEig`, Rayleigh form).  Nothing else: `NtOk`,
+`Λisqrt = Λ^{-1/2}`, `n > 0` of `PsdPassOk` are derived (`update_scaling_reestablishes_nt`). -/
+theorem lapack_pass_ok_implies_psd_pass_ok {q : Pt ℝ} (h : LapackPassOk q) : PsdPassOk q :=
+  h.psdPassOk
+
+/-- [R] `C07.step_in_unit` / accepted pass, **all seven cone kinds, LAPACK contracts only**:
+`AcceptedPassL` is `AcceptedPass` plus `LapackPassOk q`.  From an iterate interior for all cone
+kinds the new iterate is interior again and
+`0 < a`, `min_terminate_step_length < a ≤ α ≤ f·min(1, ατ, ακ) ≤ f < 1`. -/
+theorem accepted_step_interior_lapack {c : StepCfg} (hc : c.Ok) {cfg : Loop.Config ℝ}
+    {sc : Loop.Scaling} {p p' : Pt ℝ} (h : AcceptedPassL c cfg sc p p') (hI : p.InteriorAllP) :
+    p'.InteriorAllP ∧ ∃ q α a, Pt.SamePoint p q ∧ p' = StepK.addStep q a ∧
+      StepK.calcStepLength c.maxValue c.ls q true c.f = .ok α ∧
+      0 < a ∧ cfg.minTerminateStepLength < a ∧ a ≤ α ∧
+      α ≤ c.f * alphaMax q.τ q.κ q.dτ q.dκ c.maxValue ∧ α ≤ c.f ∧ a < 1 :=
+  h.interiorAllP hc hI
+
+/-- [R] `C07.all_iterates_interior`, **all seven cone kinds, the per-pass hypothesis being ONLY the
+LAPACK contracts of that pass's calls** (`TrajL`: `Traj` with `AcceptedPassL`; Cholesky ×2 and SVD in
+`update_scaling`, `?syevr` ×2 in `step_length`).  Strengthens `all_iterates_interior_all_cones`
+(whose `PsdPassOk` also assumed `NtOk`). -/
+theorem all_iterates_interior_lapack {c : StepCfg} (hc : c.Ok) {cfg : Loop.Config ℝ} {p0 : Pt ℝ}
+    (h0 : p0.InteriorAllP) {l : List (Pt ℝ)} (h : TrajL c cfg p0 l) : ∀ p ∈ l, p.InteriorAllP :=
+  h.interiorAllP hc h0
+
+/-- [R] a `TrajL` is a `TrajP` (hence a `Traj`): the LAPACK contracts imply `PsdPassOk` pass by pass -/
+theorem traj_l_is_traj_p {c : StepCfg} {cfg : Loop.Config ℝ} {p0 : Pt ℝ} {l : List (Pt ℝ)}
+    (h : TrajL c cfg p0 l) : TrajP c cfg p0 l :=
+  h.toTrajP
+
+/-- [S] without PSD blocks the hypothesis is void: every `AcceptedPass` is an `AcceptedPassL` -/
+theorem accepted_pass_l_of_no_psd {c : StepCfg} {cfg : Loop.Config ℝ} {sc : Loop.Scaling}
+    {p p' : Pt ℝ} (h : AcceptedPass c cfg sc p p') (hn : ∀ b ∈ p.blks, b.NotPsd) :
+    AcceptedPassL c cfg sc p p' :=
+  h.toL hn
+
+/-- [R] `PSDTriangleCone::unit_initialization` on one slice of the cone's length: the result
+(zero fill, then `+1` at the packed diagonal positions) is `svec(I)` — `mat` of it is the identity on
+the leading `n × n` part — and positive definite. -/
+theorem unit_initialization_psd_interior (n : Nat) (z : Array ℝ)
+    (hz : z.size = PsdIndex.triangularNumber n) :
+    ∃ z', PsdIndex.scaledUnitShift n (z.map (fun _ => (0 : ℝ))) 1 = .ok z' ∧
+      z'.size = PsdIndex.triangularNumber n ∧ PsdStep.PosDef n (PsdTri.svecToMat z') ∧
+      ∀ i j, i < n → j < n → PsdTri.svecToMat z' i j = if i = j then 1 else 0 :=
+  StepK.psd_unit_posDef n z hz
+
+/-- [R] `C07.init_interior` (problems with a nonsymmetric cone), **all seven cone kinds**: after
+`unit_initialization` the iterate is interior (`Pt.InteriorAllP`) with `τ = κ = 1`
+(`Blk.UnitShapeAll`: as `Blk.UnitShapeG`, and PSD slices of the cone's length `n(n+1)/2`).
+Extends `init_interior_unit_genpow`. -/
+theorem init_interior_unit_all_cones (p : Pt ℝ) (h : ∀ b ∈ p.blks, b.UnitShapeAll) :
+    ∃ p', StepK.unitInitialization p = .ok p' ∧ p'.InteriorAllP ∧ p'.τ = 1 ∧ p'.κ = 1 :=
+  StepK.unit_init_interiorAllP p h
+
+/-- [R] `C07.init_interior` (symmetric problems), **PSD cones included**: after
+`symmetric_initialization` — `_shift_to_cone_interior` on `s` and on `z`, `τ = κ = 1` — the iterate is
+interior, for any `(x, s, z)` the initial KKT solve produced and any list of zero / nonnegative /
+second-order / PSD cones, provided the eigenvalue lists `?syevr` returned for the PSD blocks of `s`
+and of `z` in `margins` meet their contract (`EigContracts`: present, non-empty, least entry a
+lower Rayleigh bound of `mat(block)`).  Extends `init_interior_symmetric`. -/
+theorem init_interior_symmetric_all_cones (specs : List Composite.Spec) (x z s : Array ℝ)
+    (eigZ eigS : List (Option (Array ℝ))) (hs : ∀ sp ∈ specs, Composite.SymSpecE sp)
+    (hz : Composite.totalNumel specs ≤ z.size) (hss : Composite.totalNumel specs ≤ s.size)
+    (hcz : Composite.EigContracts specs z eigZ) (hcs : Composite.EigContracts specs s eigS) :
+    ∃ z' s' pz ps, Composite.shiftToConeInteriorE specs s true eigS = .ok s' ∧
+      Composite.shiftToConeInteriorE specs z false eigZ = .ok z' ∧
+      Composite.cut specs z' = .ok pz ∧ Composite.cut specs s' = .ok ps ∧
+      (⟨x, #[], blksOf pz ps, 1, 1, 0, 0⟩ : Pt ℝ).InteriorAllP :=
+  StepK.symmetric_init_interiorAllP specs x z s eigZ eigS hs hz hss hcz hcs
+
+/-- [R] `C07.all_iterates_interior`, **all seven cone kinds, from `unit_initialization`**: every
+iterate of every solve that starts from `unit_initialization` (the start of problems with a
+nonsymmetric cone; PSD blocks `s = z = svec(I)`) is interior for all cone kinds, the only
+assumption on the numerics being the LAPACK contracts of each accepted pass's calls. -/
+theorem all_iterates_interior_from_unit_init {c : StepCfg} (hc : c.Ok) {cfg : Loop.Config ℝ}
+    (p p0 : Pt ℝ) (hsh : ∀ b ∈ p.blks, b.UnitShapeAll) (h0 : StepK.unitInitialization p = .ok p0)
+    {l : List (Pt ℝ)} (h : TrajL c cfg p0 l) : ∀ q ∈ l, q.InteriorAllP :=
+  StepK.TrajL.interiorAllP_unit hc p p0 hsh h0 h
+
+/-- [R] `C07.all_iterates_interior`, **from `symmetric_initialization` with PSD cones**: every
+iterate of every solve of a problem over zero / nonnegative / second-order / PSD cones that starts
+from the two shifts (PSD margins from `?syevr`'s eigenvalues, under that call's contract) is
+interior, the accepted passes meeting the LAPACK contracts of their calls. -/
+theorem all_iterates_interior_from_symmetric_init {c : StepCfg} (hc : c.Ok) {cfg : Loop.Config ℝ}
+    (specs : List Composite.Spec) (x z s z' s' : Array ℝ) (eigZ eigS : List (Option (Array ℝ)))
+    (pz ps : List (Composite.Spec × Array ℝ)) (hs : ∀ sp ∈ specs, Composite.SymSpecE sp)
+    (hz : Composite.totalNumel specs ≤ z.size) (hss : Composite.totalNumel specs ≤ s.size)
+    (hcz : Composite.EigContracts specs z eigZ) (hcs : Composite.EigContracts specs s eigS)
+    (e1 : Composite.shiftToConeInteriorE specs s true eigS = .ok s')
+    (e2 : Composite.shiftToConeInteriorE specs z false eigZ = .ok z')
+    (c2 : Composite.cut specs z' = .ok pz) (c1 : Composite.cut specs s' = .ok ps) {l : List (Pt ℝ)}
+    (h : TrajL c cfg (⟨x, #[], blksOf pz ps, 1, 1, 0, 0⟩ : Pt ℝ) l) : ∀ q ∈ l, q.InteriorAllP :=
+  StepK.TrajL.interiorAllP_symmetric hc specs x z s z' s' eigZ eigS pz ps hs hz hss hcz hcs e1 e2 c2 c1 h
+
+/-- [R] **an accepted pass has had every `eigvals` call of its non-empty PSD blocks answered.**  If
+`calc_step_length` returned `α`, `get_step_length` returned `a` (`α` or a barrier back-track of it)
+and `strategy_checkpoint_small_step` let `a` through to `add_step`, then for every PSD block of order
+`n > 0` of the pass neither `γz` nor `γs` is `none`: a failed `?syevr` makes
+`step_length_psd_component` return `0`, the composite step is a minimum over the cones, so `a ≤ α ≤ 0`
+and the checkpoint does not answer `NoUpdate`.  No hypothesis on the other cones or on the
+directions. -/
+theorem accepted_pass_eigvals_answered {c : StepCfg} (hc : c.Ok) {cfg : Loop.Config ℝ}
+    {sc : Loop.Scaling} {q p' : Pt ℝ} {α a : ℝ}
+    (hcalc : StepK.calcStepLength c.maxValue c.ls q true c.f = .ok α)
+    (hbt : Backtracked c.btStep α a) (hacc : StepK.acceptStep cfg sc q a = some p')
+    (K : PsdTri.Cone ℝ) (γz γs : Option ℝ) (z s dz ds : Array ℝ)
+    (hb : Blk.psd K γz γs z s dz ds ∈ q.blks) (hn : 0 < K.n) : γz ≠ none ∧ γs ≠ none :=
+  StepK.accepted_eigvals_answered hc hcalc hbt hacc K γz γs z s dz ds hb hn
+
+/-- [R] hence the LAPACK contracts may be taken in **conditional form** (`LapackPassSound`: the
+factorisation contracts of `update_scaling`, and each `?syevr` answer right *whenever* the call
+answers): an accepted pass under them is an `AcceptedPassL` -/
+theorem accepted_pass_s_is_l {c : StepCfg} (hc : c.Ok) {cfg : Loop.Config ℝ} {sc : Loop.Scaling}
+    {p p' : Pt ℝ} (h : AcceptedPassS c cfg sc p p') : AcceptedPassL c cfg sc p p' :=
+  h.toL hc
+
+/-- [R] a `TrajS` is a `TrajL` (so `all_iterates_interior_from_unit_init` /
+`all_iterates_interior_from_symmetric_init` apply to it), and conversely -/
+theorem traj_s_iff_traj_l {c : StepCfg} (hc : c.Ok) {cfg : Loop.Config ℝ} {p0 : Pt ℝ} {l : List (Pt ℝ)} :
+    TrajS c cfg p0 l ↔ TrajL c cfg p0 l :=
+  ⟨fun h => h.toTrajL hc, fun h => h.toTrajS⟩
+
+/-- [R] `C07.all_iterates_interior`, all seven cone kinds, under the conditional LAPACK contracts
+(`TrajS`) -/
+theorem all_iterates_interior_lapack_sound {c : StepCfg} (hc : c.Ok) {cfg : Loop.Config ℝ} {p0 : Pt ℝ}
+    (h0 : p0.InteriorAllP) {l : List (Pt ℝ)} (h : TrajS c cfg p0 l) : ∀ p ∈ l, p.InteriorAllP :=
+  h.interiorAllP hc h0
+
+/-! ### non-vacuity -/
+section examples7
+
+/-- `accepted_pass_eigvals_answered`: the accepted pass `exPassL` with its PSD block of order 1 -/
+example : ∃ cfg : Loop.Config ℝ, ∃ p',
+    StepK.calcStepLength (100 : ℝ) ⟨4 / 5, 1 / 10000, 100⟩ StepK.exPassL true (99 / 100) = .ok (99 / 200) ∧
+    Backtracked (4 / 5) (99 / 200) (99 / 200) ∧
+    StepK.acceptStep cfg .PrimalDual StepK.exPassL (99 / 200) = some p' ∧
+    Blk.psd StepK.exKL (some (-2)) (some (-2)) #[1] #[1] #[-2] #[-2] ∈ StepK.exPassL.blks ∧
+    0 < StepK.exKL.n :=
+  StepK.exPassL_accept_parts
+
+/-- `accepted_pass_s_is_l` / `all_iterates_interior_lapack_sound`: an `AcceptedPassS` and a two-point
+`TrajS` from the start `unit_initialization` produced -/
+example : ∃ cfg : Loop.Config ℝ, ∃ p',
+    AcceptedPassS ⟨100, ⟨4 / 5, 1 / 10000, 100⟩, 99 / 100, 4 / 5⟩ cfg .PrimalDual StepK.exStartL p' ∧
+    TrajS ⟨100, ⟨4 / 5, 1 / 10000, 100⟩, 99 / 100, 4 / 5⟩ cfg StepK.exStartL [p', StepK.exStartL] := by
+  obtain ⟨cfg, p', h⟩ := StepK.exPassL_accepted
+  exact ⟨cfg, p', h.toS, .step _ .start h.toS⟩
+
+/-- `update_scaling_reestablishes_nt`: at `s = z = (1)` with `L₁ = L₂ = U = Vt = σ = (1)` the call
+succeeds and the contracts hold -/
+example : (#[1] : Array ℝ).isEmpty = false ∧
+    PsdTri.updateScaling StepK.exKL (#[1] : Array ℝ) #[1] ⟨some #[1], some #[1], some (#[1], #[1], #[1])⟩
+      = .ok (true, StepK.exKL) ∧
+    ScalingLapackOk StepK.exKL.n (#[1] : Array ℝ) #[1] #[1] #[1] #[1] #[1] #[1] :=
+  ⟨rfl, StepK.exKL_update, StepK.exKL_lapack⟩
+
+/-- `lapack_pass_ok_implies_psd_pass_ok`: a pass with a nonnegative and a PSD block meeting
+`LapackPassOk` -/
+example : LapackPassOk StepK.exPassL := StepK.exPassL_lapack
+
+/-- `accepted_step_interior_lapack` / `all_iterates_interior_lapack` /
+`all_iterates_interior_from_unit_init`: `unit_initialization` of a problem with a nonnegative and a
+`1 × 1` PSD block, then one accepted pass (`calc_step_length = 0.99 · ½`) whose LAPACK results meet
+their contracts — a two-point `TrajL` from the solver's own start -/
+example : ∃ (cfg : Loop.Config ℝ) (p' : Pt ℝ),
+    (∀ b ∈ StepK.exInitL.blks, b.UnitShapeAll) ∧
+    StepK.unitInitialization StepK.exInitL = .ok StepK.exStartL ∧
+    TrajL ⟨100, ⟨4 / 5, 1 / 10000, 100⟩, 99 / 100, 4 / 5⟩ cfg StepK.exStartL [p', StepK.exStartL] :=
+  StepK.exTrajL_unit
+
+/-- …and the start is interior for all cone kinds, the pass an `AcceptedPassL` -/
+example : StepK.exStartL.InteriorAllP ∧ ∃ cfg : Loop.Config ℝ, ∃ p',
+    AcceptedPassL ⟨100, ⟨4 / 5, 1 / 10000, 100⟩, 99 / 100, 4 / 5⟩ cfg .PrimalDual StepK.exStartL p' := by
+  obtain ⟨p', e, hI, _, _⟩ := StepK.unit_init_interiorAllP StepK.exInitL StepK.exInitL_shape
+  rw [StepK.exInitL_unit] at e
+  cases e
+  exact ⟨hI, StepK.exPassL_accepted⟩
+
+/-- `unit_initialization_psd_interior`: a slice of the length of the `2 × 2` cone -/
+example : (#[7, 8, 9] : Array ℝ).size = PsdIndex.triangularNumber 2 := rfl
+
+/-- `init_interior_symmetric_all_cones` / `all_iterates_interior_from_symmetric_init`: an NN cone and
+a `1 × 1` PSD cone, `z = (−1, 2 | −3)` with eigenvalue list `(−3)`, `s = (1, 1 | 5)` with `(5)` -/
+example : (∀ sp ∈ [Composite.Spec.nonneg 2, .psd 1], Composite.SymSpecE sp) ∧
+    Composite.totalNumel [.nonneg 2, .psd 1] ≤ (#[-1, 2, -3] : Array ℝ).size ∧
+    Composite.totalNumel [.nonneg 2, .psd 1] ≤ (#[1, 1, 5] : Array ℝ).size ∧
+    Composite.EigContracts [.nonneg 2, .psd 1] (#[-1, 2, -3] : Array ℝ) [none, some #[-3]] ∧
+    Composite.EigContracts [.nonneg 2, .psd 1] (#[1, 1, 5] : Array ℝ) [none, some #[5]] :=
+  StepK.exSymInit_hyps
+
+/-- …with the one-point trajectory from the shifted start -/
+example : ∃ z' s' pz ps,
+    Composite.shiftToConeInteriorE [.nonneg 2, .psd 1] (#[1, 1, 5] : Array ℝ) true [none, some #[5]] = .ok s' ∧
+    Composite.shiftToConeInteriorE [.nonneg 2, .psd 1] (#[-1, 2, -3] : Array ℝ) false [none, some #[-3]] = .ok z' ∧
+    Composite.cut [.nonneg 2, .psd 1] z' = .ok pz ∧ Composite.cut [.nonneg 2, .psd 1] s' = .ok ps ∧
+    TrajL ⟨100, ⟨4 / 5, 1 / 10000, 100⟩, 99 / 100, 4 / 5⟩
+      (⟨10, 0, false, ⟨0, 0, 0, 0, 0, 0⟩, ⟨0, 0, 0, 0, 0, 0⟩, 1 / 10, 1 / 10000, true, true, true⟩ :
+        Loop.Config ℝ) (⟨#[], #[], blksOf pz ps, 1, 1, 0, 0⟩ : Pt ℝ)
+      [(⟨#[], #[], blksOf pz ps, 1, 1, 0, 0⟩ : Pt ℝ)] := by
+  obtain ⟨h1, h2, h3, h4, h5⟩ := StepK.exSymInit_hyps
+  obtain ⟨z', s', pz, ps, e1, e2, c2, c1, _⟩ :=
+    StepK.symmetric_init_interiorAllP [.nonneg 2, .psd 1] #[] #[-1, 2, -3] #[1, 1, 5] [none, some #[-3]]
+      [none, some #[5]] h1 h2 h3 h4 h5
+  exact ⟨z', s', pz, ps, e1, e2, c2, c1, .start⟩
+
+/-- a pass without PSD blocks (`exNN`): the hypothesis of `accepted_pass_l_of_no_psd` -/
+example : ∀ b ∈ exNN.blks, b.NotPsd := by
+  intro b hb
+  simp only [exNN, List.mem_singleton] at hb
+  subst hb; trivial
+
+end examples7
 
 end Clarabel.C07
